@@ -134,14 +134,15 @@ impl Rig {
 }
 
 /// Outcome codes of a client run: 10 = repository reported updated (RRDP
-/// repository returned), 11 = not updated, 12 = run failed, 101 = panic.
+/// repository returned), 11 = not updated, 12 = run failed and can be retried,
+/// 14 = run failed fatally, 101 = panic.
 fn run_code(rig: &Rig) -> i32 { run_code_status(rig).0 }
 
 /// The outcome code and the HTTP status the notification request got (304 = not modified).
 fn run_code_status(rig: &Rig) -> (i32, i16) {
     match crate::common::catch(std::panic::AssertUnwindSafe(|| client_run(&rig.collector, &rig.ca, &rig.srv, &[]))) {
         Ok(Ok(obs)) => (if obs.updated { 10 } else { 11 }, obs.notify_status),
-        Ok(Err(_)) => (12, 0),
+        Ok(Err(e)) => (if e.contains("fatal: true") { 14 } else { 12 }, 0),
         Err(_) => (101, 0),
     }
 }
@@ -395,7 +396,9 @@ fn one(rep: &mut Report, rig: &Rig, b: &Value, idx: usize, args: &Args, rng: &mu
     }
     let mut pos = 0usize;
     let mut observed: BTreeSet<Disk> = BTreeSet::new();
+    let only_k: Option<usize> = std::env::var("VH_ONLY_K").ok().and_then(|x| x.parse().ok());
     for k in 1..=points.len() {
+        if only_k.map(|o| o != k).unwrap_or(false) { continue }
         let name = points[k - 1].clone();
         let crashed = snaps.join(format!("k{k}"));
         let ctx = json!({"scenario": idx, "srv": b["srv"], "base": base_ver, "shape": ctx0["shape"], "kill_point": k,
@@ -501,6 +504,7 @@ fn follow_ups(rep: &mut Report, sc: &Scenario, ctx: &Value, crashed: &Path, cach
         srv.set_validators(true, true);
         let mut added = false;
         let mut from = crashed.to_path_buf();
+        let mut second_kill = Value::Null;
         match *kind {
             "next" => { srv.publish(objects_of(&base_uri, &json!(next))); added = true; }
             "newsess" => { srv.new_session(target as u64 + 1, objects_of(&base_uri, &json!(next))); added = true; }
@@ -512,17 +516,28 @@ fn follow_ups(rep: &mut Report, sc: &Scenario, ctx: &Value, crashed: &Path, cach
                 let snaps2 = caches.join("snaps2");
                 let (_, names) = client_observed(rig, crashed, &snaps2);
                 if !names.is_empty() {
-                    let k2 = 1 + rng.below(names.len() as u64) as usize;
+                    let k2 = std::env::var("VH_ONLY_K2").ok().and_then(|x| x.parse().ok()).unwrap_or(1 + rng.below(names.len() as u64) as usize);
                     from = snaps2.join(format!("k{k2}"));
+                    second_kill = json!({"kill_point": k2, "kill_point_name": names[k2 - 1], "of": names.len()});
                 }
             }
             _ => {}
         }
-        let (code, nstatus) = client_here_status(rig, &from);
+        if std::env::var("VH_ONLY_K2").is_ok() && *kind == "kill-again" { log::set_max_level(log::LevelFilter::Debug); }
+        let (mut code, mut nstatus) = client_here_status(rig, &from);
+        if std::env::var("VH_ONLY_K2").is_ok() { log::set_max_level(log::LevelFilter::Off); }
+        if code == 12 {
+            // "corrupt, deleting and starting again": the run fails and asks to be repeated; the repeated run is judged
+            rep.add_note(C24, "follow_up_runs_retried", 1);
+            let again = run_code_status(rig);
+            code = again.0; nstatus = again.1;
+        }
         rep.eval(C24);
         let (d, l) = sc.classify(&rig.run_cache);
         let mut c = ctx.clone();
         c["follow_up"] = json!(kind);
+        if !second_kill.is_null() { c["second_kill"] = second_kill.clone(); }
+        if std::env::var("VH_DEBUG").is_ok() { eprintln!("DBG   follow-up {kind} {second_kill} code={code} status={nstatus} {:?}", d); }
         if nstatus == 304 { rep.add_note(C24, "follow_ups_answered_304", 1); }
         match code {
             10 => judge_reported(rep, sc, &c, kind, &d, &l, nstatus == 304),
@@ -532,10 +547,15 @@ fn follow_ups(rep: &mut Report, sc: &Scenario, ctx: &Value, crashed: &Path, cach
                 rep.divergence(C24, format!("follow-up '{kind}' after kill {} in scenario {} did not report the repository as updated (state {:?})",
                     ctx["kill_point"], ctx["scenario"], d));
             }
+            101 => {
+                rep.violation(C24, &format!("follow-up-run-panics/{kind}"),
+                    format!("the follow-up run ({kind}) after the kill panicked"), c.clone(), json!({"disk": d.to_json()}));
+            }
             other => {
-                rep.violation(C24, &format!("follow-up-run-fails/{kind}"),
-                    format!("the follow-up run ({kind}) after the kill ended with code {other} (12 = run failed, 101 = panic)"),
-                    c.clone(), json!({"disk": d.to_json()}));
+                // a failed run reports nothing as updated: not C24's subject, but the model has no such step
+                rep.add_note(C24, "follow_up_runs_failed", 1);
+                rep.divergence(C24, format!("follow-up '{kind}' after kill {} in scenario {} failed with code {other} (12 = retry also failed, 14 = fatal); state {:?}",
+                    ctx["kill_point"], ctx["scenario"], d));
             }
         }
         if added {
